@@ -292,12 +292,14 @@ def run(ctx):
         z = [x for x in g.stores() if x[2][0] == "field" and x[2][1] == ("param", 1) and x[3] == ("const", 0, "u64")]
         hv = [1 for bb, tt in g.calls() if tt.get("rpath") in set(resets)]
         cl = [1 for bb, tt in g.calls() if tt.get("rpath", "").endswith("DoorKeeper::clear")]
-        if z and hv:
+        if z and hv and not reaches_call(F, g, "::add_if_missing", 1):
             age_fns[n] = z[0][2][2]
             ctx.check(bool(cl) and len(z) == 1, "R14.6", "%s|reset-ages-everything" % n,
                       "ageing zeroes the access counter, halves the sketch and clears the first-access filter", g.where())
     dk_fns = {n for n in F.fns if n.endswith("::add_if_missing")}
-    opaque = lambda n: n in dk_fns or n in sk_inc or n in age_fns
+    rs_fns = set(resets)
+    clear_fns = {n for n in F.fns if n.endswith("DoorKeeper::clear")}
+    opaque = lambda n: n in dk_fns or n in sk_inc or n in age_fns or n in rs_fns or n in clear_fns
     cands = {}
     for n, f in F.fns.items():
         if f.kind == "Closure" or n.startswith("cache::proxy::") or f.argc < 2 or n in dk_fns or n in sk_inc or n in age_fns:
@@ -310,6 +312,7 @@ def run(ctx):
     lfu = [cands[n][0] for n in sorted(cands) if not any(t.get("rpath") == n for m in cands if m != n for b, t in cands[m][0].calls())]
     ctx.floor("R14.6", "access-recording functions (doorkeeper then sketch)", len(lfu), 1)
     counter = None
+    inline_age = False
     for f in lfu:
         ctx.touch(f)
         bad = []
@@ -317,7 +320,8 @@ def run(ctx):
         for p in cands[f.name][1]:
             dk = p.calls(dk_fns)
             inc = p.calls(sk_inc)
-            rs = p.calls(set(age_fns))
+            # ageing: a call of an ageing function, or (when that private function is part of this one) the sketch reset itself
+            rs = p.calls(set(age_fns)) or p.calls(rs_fns)
             a = [x for x in p.atoms if x[0] == "bool" and strip_site(x[1]) == strip_site(dk[0].res)]
             if not a:
                 bad.append("doorkeeper result not branched on")
@@ -344,8 +348,14 @@ def run(ctx):
                 bad.append("reset must run iff the counter reached the threshold")
             if th[0] and rs and rs[0].seq < bumps[0][2][3]:
                 bad.append("reset before counting the access")
-            if rs and age_fns.get(rs[0].callee) != counter:
+            if rs and rs[0].callee in age_fns and age_fns.get(rs[0].callee) != counter:
                 bad.append("the ageing function zeroes another field than the access counter")
+            if rs and rs[0].callee in rs_fns:
+                zero = [x for x in p.stores if x[0] == ("field", ("param", 1), counter) and x[1] == ("const", 0, "u64") and x[2][3] > bumps[0][2][3]]
+                if not (len(zero) == 1 and p.calls(clear_fns)):
+                    bad.append("ageing must zero the access counter, halve the sketch and clear the first-access filter")
+                else:
+                    inline_age = True
         ctx.check(not bad and len(rows_seen) == 4, "R14.6", "%s|doorkeeper-sketch-reset-table" % f.name,
                   "sketch incremented iff the doorkeeper already had the key; access counter += 1 on every path; counter >= threshold <=> reset (4 rows)", f.where(), "; ".join(sorted(set(bad))[:3]))
     # threshold originates from the configured counters
